@@ -26,6 +26,20 @@ def inst(rule, key, ok, detail='', path=None, nontrivial=True, sample=None):
                 nontrivial=nontrivial, sample=sample)
 
 
+def collect(ctx, *rules):
+    """Run rule functions; a missing structural anchor in one rule is reported as that rule's
+    violation (fail closed) without hiding what the other rules find."""
+    out = []
+    for r in rules:
+        try:
+            out += list(r(ctx))
+        except RoleError as e:
+            rid = r.__name__.upper().split('_')
+            out.append(inst('%s.%s' % (rid[0], rid[1]) if len(rid) > 1 else rid[0], 'anchor', False,
+                            'ENGINE: structural anchor lost while evaluating %s: %s' % (r.__name__, e)))
+    return out
+
+
 def load_known():
     p = os.path.join(VERIF, 'known_findings.json')
     if not os.path.exists(p):
